@@ -641,6 +641,11 @@ def fam_cluster(tier, base):
     os.remove(rin); os.remove(rtrace)
     os.remove(inputs)
     viols, tr = verif.validate_trace("Trace_Cluster", "Trace_Cluster.cfg", trace, heap="16g")
+    # second pass: the calls each single-workload remove / dissociate / realloc made are a behaviour of the ClusterOps
+    # step machine and end in the machine's final state (diagnostic: REF)
+    verif.model_check("MC_ClusterOps", "MC_ClusterOps.cfg", timeout=600, workers=1)
+    v2, _ = verif.validate_trace("Trace_ClusterOps", "Trace_ClusterOps.cfg", trace, heap="16g")
+    viols = viols + v2
     lines = verif.read_lines(trace)
     cnt = lambda s: sum(1 for ln in lines if s in ln)
     runs, faults, crashes = cnt('"ev":"Run"'), cnt('"class":"injected"'), cnt('"ev":"Crash"')
@@ -834,9 +839,11 @@ def fam_cluster_hist(tier, base):
     verif.run_driver_sharded(b, "TestClusterHistories", inputs, trace, shards=14, timeout=7000)
     os.remove(inputs)
     viols, tr = verif.validate_trace("Trace_Cluster", "Trace_Cluster.cfg", trace, heap="16g")
+    v2, _ = verif.validate_trace("Trace_ClusterOps", "Trace_ClusterOps.cfg", trace, heap="16g")
+    viols = viols + v2
     lines = verif.read_lines(trace)
     cnt = lambda s: sum(1 for ln in lines if s in ln)
-    return dict(trace=trace, viols=viols, states=max(1, gen), transitions=gen, configs=["MC_ClusterHist_sim.cfg", "Trace_Cluster.cfg"], window=60, exhaustive=False,
+    return dict(trace=trace, viols=viols, states=max(1, gen), transitions=gen, configs=["MC_ClusterHist_sim.cfg", "Trace_Cluster.cfg", "Trace_ClusterOps.cfg"], window=60, exhaustive=False,
                 traces={"*": cnt('"ev":"Run"')}, samples={"*": [json.loads(x) for x in lines[:1]]}, nontrivial={"C10": cnt('"ev":"Run"'), "C11": cnt('"class":"injected"'), "C22": cnt('"ev":"Run"')},
                 notes="%d TLC-simulated histories of 6 API calls (create with 3 strategies, remove, dissociate, realloc with 7 deltas, replace, set-node), each call with or without an injected failure at its 3rd..20th external call, on plain and NUMA node layouts; %d calls, the state judged after every one" % (n, cnt('"ev":"Run"')))
 
